@@ -127,7 +127,7 @@ fn replay(id: &'static str, leg: &str, case: &serde_json::Value) -> i32 {
 }
 
 fn c11_meta(ctx: &mut Ctx) {
-    ctx.rule = "(a) scripts of 1-4 stream opens on a pool of 3 topics, some already used in the other messaging pattern, against a fresh real server: first frame of any of the eight kinds (registrations with valid and grammar-violating names; Message, BatchMessage, Error, Ok), followed by 0-5 frames of any kind incl. requests sized within 64 bytes of the wire limit (they fit until the server adds its routing tag) and replies with bogus tags; every accepted stream is probed for real service in its role, every touched topic is probed afterwards with well-behaved peers, and a process-wide panic hook watches the server tasks; (b) the same frame mixes fed straight into the real req/rep router with mock peers; non-trivial = the script contains a frame kind the role never sends, a cross-pattern registration, a non-registration first frame, a second replier, or a request near the limit".into();
+    ctx.rule = "(a) scripts of 1-4 stream opens on a pool of 3 topics, some already used in the other messaging pattern, against a fresh real server: first frame of any of the eight kinds (registrations with valid and grammar-violating names; Message, BatchMessage, Error, Ok), followed by 0-5 frames of any kind incl. requests sized within 64 bytes of the wire limit (they fit until the server adds its routing tag) and replies with bogus tags; every accepted stream is probed for real service in its role, every touched topic is probed afterwards with well-behaved peers, and a process-wide panic hook watches the server tasks; (b) the same frame mixes fed straight into the real req/rep router with mock peers; (b2) the same while peers' sinks fail at poll_ready/start_send/poll_flush and whole connections go away (leg rr-frames-with-dying-peers: a peer that dies between its frame and the answer to it must not take the router down); non-trivial = the script contains a frame kind the role never sends, a cross-pattern registration, a non-registration first frame, a second replier, or a request near the limit".into();
     ctx.assumptions.push("authenticated peer, well-formed frames only (malformed bytes are C06)".into());
     ctx.assumptions.push("a second replier is answered Ok and then explicitly refused with REPLIER_ALREADY_BOUND: an explicit refusal, not a silent abandonment".into());
 }
